@@ -20,7 +20,7 @@ def main():
     meta = json.load(open(os.path.join(src, "meta.json")))
     patch = os.path.join(src, "patch.diff")
     demo = os.path.join(src, "demo_test.go")
-    sid = "%s-%s" % (pid, x)
+    sid = "%s-%s%s" % (pid, os.environ.get("MUT_PREFIX", ""), x)
     scratch = "/tmp/confirm-%s" % sid
     sh("git -C /repo worktree remove --force %s" % scratch)
     rc, out = sh("git -C /repo worktree add -q --detach %s HEAD" % scratch)
